@@ -63,6 +63,10 @@ def scenarios(tier, seed=0):
     for soil, dz, gw, word in itertools.product(soils[:2], ["d15x20", "odd"], ["0.222", "0.522", "0.824", "0.271", "slow_v", "rising_v", "0.8"], ["dry", "normal"]):
         c = A._b(soil=soil, dz=dz, gw=gw, crop="maize.2", irr="none", word=word, win="w2", iwc="FC")
         yield {"kind": "config", "config": c}
+    # the observation dates written in other accepted notations (unpadded 2001/5/9, dashes, Timestamp objects), multi-observation series
+    for soil, dz, gw, style in itertools.product(soils[:2], dzs, [g for g in ALL_GW if any(k in g for k in ("rising", "falling", "slow", "four", "two", "late", "early"))], ["unpadded", "dashes", "timestamp"]):
+        c = A._b(soil=soil, dz=dz, gw=gw, crop="maize.2", irr="none", word="normal", win="w2", iwc="FC")
+        yield {"kind": "config", "config": c, "date_style": style}
     # far table == no table (pairs of executions)
     for soil, dz, ck, irr, word in itertools.product(soils, dzs, crops, irrs, words[:2]):
         c = A._b(soil=soil, dz=dz, gw="50", crop=ck, irr=irr, word=word, win="w2", iwc="Pct50")
@@ -77,6 +81,8 @@ def run(scn):
     if scn["kind"] == "far":
         return run_far(scn)
     spec = scn["spec"] if scn["kind"] == "spec" else A.to_spec(scn["config"])
+    if scn.get("date_style") and spec.get("gw"):
+        spec["gw"]["date_style"] = scn["date_style"]
     ctx = execute(spec, [C19Groundwater()], pid=PID, timeout=120)
     ab = ctx.aborted
     if ab and spec.get("gw") is not None and any(k in (ab.get("exc_origin") or "") + " ".join(ab.get("exc_chain") or []) for k in
